@@ -502,6 +502,38 @@ def rule_v6(F):
     return r
 
 
+def rule_v7(F):
+    """The evaluator's `Offset` is relative to the pointer it is applied to, as the JIT's pointer addition is: the new position is
+    the old position plus the offset (an offset of an already offset pointer - e.g. a field of a nested record - accumulates)."""
+    r = RuleResult("C20.V7", "pointer offsetting in the evaluator accumulates: new position = old position + offset", floor=1)
+    ps = [p for p in F.paths() if p.endswith("LocalPointer::offset_by")]
+    if not ps:
+        r.missing("lir::eval LocalPointer::offset_by")
+        return r
+    b = F.body(ps[0])
+    ld = hir.LocalDefs(b.hir)
+    pidx = hir.param_index(b.hir)
+    n = 0
+    for st in hir.nodes(b.hir["value"], "struct"):
+        for f in st["fields"]:
+            if f[0] != "allocation_offset":
+                continue
+            n += 1
+            e = hir.strip(f[1])
+            nodes = list(hir.walk_expanded(ld, e))
+            adds = [x for x in nodes if x.get("k") == "bin" and x.get("op") == "+"] + [x for x in nodes if x.get("k") == "mcall" and x["m"] in ("checked_add", "wrapping_add", "saturating_add")]
+            old = any(x.get("k") == "field" and x.get("n") == "allocation_offset" and hir.param_roots(b.hir, ld, x["e"], pidx=pidx) == {0} for x in nodes)
+            arg = any(x.get("k") == "path" and hir.res_local(x) in pidx and pidx[hir.res_local(x)] == 1 for x in nodes)
+            ok = bool(adds) and old and arg
+            r.inst("offset_by allocation_offset", {"adds": len(adds), "uses_old_position": old, "uses_offset_argument": arg})
+            if not ok:
+                r.bad(b.path, "allocation_offset", relfile(b.file), st["line"],
+                      "the offset pointer's position is not `old position + offset` (uses old position: %s, uses the argument: %s, addition: %s): offsetting an already offset pointer lands at the wrong field, inside the same allocation and aligned, so no check fires and the evaluator silently computes with other data than the compiled code" % (old, arg, bool(adds)))
+    if n == 0:
+        r.missing("allocation_offset field in LocalPointer::offset_by")
+    return r
+
+
 def rules(ctx):
     F = ctx["F"]
-    return [rule_v1(F), rule_v2(F), rule_v3(F), rule_v4(F), rule_v6(F)]
+    return [rule_v1(F), rule_v2(F), rule_v3(F), rule_v4(F), rule_v6(F), rule_v7(F)]
